@@ -160,9 +160,17 @@ def evalNode (nodes : Array CNode) (env : Env) (vals : Array SigMap) (nd : CNode
   | .bgate op a k b => if cmp op (av a) (av k) then bv b else []
   | .entOut e => env.entOut e
 
-/-- forward evaluation of all nodes (a node only refers to earlier nodes) -/
-def evalNodes (nodes : Array CNode) (env : Env) : Array SigMap :=
-  nodes.foldl (fun vals nd => vals.push (evalNode nodes env vals nd)) #[]
+/-- values of the first `k` nodes (a node only refers to earlier nodes) -/
+def evalUpTo (nodes : Array CNode) (env : Env) : Nat → Array SigMap
+  | 0 => #[]
+  | k + 1 =>
+    let vals := evalUpTo nodes env k
+    match nodes[k]? with
+    | some nd => vals.push (evalNode nodes env vals nd)
+    | none => vals
+
+/-- forward evaluation of all nodes -/
+def evalNodes (nodes : Array CNode) (env : Env) : Array SigMap := evalUpTo nodes env nodes.size
 
 /-- next value of a memory cell after the inputs were held until everything settled (C03, C05);
 for `always` cells this is one application of the written function (C04). -/
